@@ -56,6 +56,9 @@ def leaves(tier):
         T((), (3,), lid=13),
         T("k", (3, 2), lid=14),
         T("ki", lid=15),
+        T("ij", (2,), lid=23),  # same names as lid 12 in the other order, with an event shape (matmul / getitem alignment)
+        T("ij", (2, 2), lid=24),
+        T("ji", (2, 2), lid=25),
     ]
     ints = [
         T("i", dtype=3, contents=[2, 0]),
